@@ -7,6 +7,7 @@ package handlers
 // the number of lines all servers accounted for.
 
 import (
+	"os"
 	"fmt"
 	"reflect"
 	"regexp"
@@ -278,4 +279,67 @@ func TestC06Client(t *testing.T) {
 // c06cLocalGroup returns the address of the handler's per-server group set (the argument the merge trace points carry).
 func c06cLocalGroup(h *MaprHandler) uintptr {
 	return reflect.ValueOf(h.aggregate).Elem().FieldByName("group").Pointer()
+}
+
+// The client's periodic reporter (MaprClient.reportResults: GlobalGroupSet.Result / SwapOut) runs while the per-server
+// handlers are still merging partial results.  Eight servers deliver 'rounds' messages each over many groups, a reporter
+// renders the interim result every few milliseconds; at the end the cumulative result must account for every line.
+// (A data race on the group maps ends the process with "fatal error: concurrent map ..."; the driver reports that.)
+func TestC06Reporter(t *testing.T) {
+	vInit("none")
+	rounds := 3000
+	fmt.Sscanf(os.Getenv("VERIF_N"), "%d", &rounds)
+	query, err := mapr.NewQuery("select count($line),$g group by $g")
+	if err != nil {
+		t.Fatal(err)
+	}
+	global := mapr.NewGlobalGroupSet()
+	nsrv := 8
+	var wg sync.WaitGroup
+	stop := make(chan struct{})
+	reports := 0
+	repDone := make(chan struct{})
+	go func() {
+		defer close(repDone)
+		for {
+			select {
+			case <-stop:
+				return
+			default:
+			}
+			if _, _, err := global.Result(query, 10); err == nil {
+				reports++
+			}
+			time.Sleep(200 * time.Microsecond)
+		}
+	}()
+	for s := 0; s < nsrv; s++ {
+		wg.Add(1)
+		go func(s int) {
+			defer wg.Done()
+			h := NewMaprHandler(fmt.Sprintf("srv%d", s+1), query, global)
+			for r := 0; r < rounds; r++ {
+				g := fmt.Sprintf("g%d", (r*7+s)%(rounds*2)) // new groups keep appearing for the whole run
+				msg := fmt.Sprintf("AGGREGATE|srv%d|%s∥3∥count($line)≔3∥$g≔%s∥", s+1, g, g)
+				h.Write(append([]byte(msg), 0xAC))
+			}
+		}(s)
+	}
+	wg.Wait()
+	close(stop)
+	<-repDone
+	total := 0
+	groups := 0
+	if res, n, err := global.Result(query, 100000); err == nil {
+		groups = n
+		for _, l := range strings.Split(res, "\n") {
+			f := strings.Split(l, "|")
+			if len(f) == 2 {
+				if v, err := strconv.Atoi(strings.TrimSpace(f[0])); err == nil {
+					total += v
+				}
+			}
+		}
+	}
+	vWriteJSON(t, "VERIF_OUT", map[string]interface{}{"expected": nsrv * rounds * 3, "counted": total, "groups": groups, "reports": reports})
 }
